@@ -1579,6 +1579,10 @@ func (c *compiler) compileTermSuffix(e *Term, s *Suffix) error {
 		c.append(&code{op: opiter})
 		return nil
 	} else if s.Optional {
+		if e.Type == TermTypeIndex && len(e.SuffixList) == 0 {
+			// .[k]? is (.)[k]? (ref: compileTerm)
+			e = &Term{Type: TermTypeIdentity, SuffixList: []*Suffix{{Index: e.Index}}}
+		}
 		if len(e.SuffixList) > 0 {
 			if x := e.SuffixList[len(e.SuffixList)-1].Index; x != nil {
 				// no need to clone (ref: compileTerm)
